@@ -230,3 +230,47 @@ def rekey_after_use(used_before: bool, assign_root: bool, assign_sub: bool, mi: 
             hold("rekey", _decrypt(leaf, KEYS[keypath]) == text,
                  lambda: "secret %r is not encrypted under %s" % (text, keypath))
     return True
+
+
+@obligation(prop="C03", sites=("files",), stubs=("FakeFS", "MemFormat"),
+            encodes=["cincoconfig.fields.secure_field.SecureField.to_basic", "cincoconfig.core.Config._keyfile"],
+            budget={"quick": 200, "thorough": 400},
+            what="every secret lives in configurations that name their OWN key file (config-type field and "
+                 "config-type list items); the root names none or another file: saving and loading (dumps/loads, "
+                 "to_tree/load_tree) never open or create the root's / the default key file")
+def foreign_key_never_touched(root_named: bool, route: int, default_exists: bool, mi: int) -> bool:
+    """
+    pre: 0 <= route <= 1 and 0 <= mi <= 1
+    post: _
+    """
+    method = "xor" if mi == 0 else "aes"
+    files = {ROOTK: KEYS[ROOTK], CTK: KEYS[CTK]}
+    if default_exists:
+        files[DEFAULTK] = KEYS[DEFAULTK]
+    fs = FakeFS(files=files, dirs=["/k", DEFAULTK.rsplit("/", 1)[0] or "/"])
+    mem = MemStore()
+    with fs.patched(), mem.registered():
+        t = Schema()
+        t.pw = SecureField(method=method)
+        T = make_type_nt(t, "T", key_filename=CTK)
+        schema = Schema()
+        schema.title = StringField(default="no secret here")
+        schema.ct = T
+        schema.titems = ListField(T, default=lambda: [])
+        cfg = schema(key_filename=ROOTK if root_named else None)
+        cfg.ct.pw = "c-secret"
+        cfg.titems = [{"pw": "t-secret"}]
+        opens0 = len(fs.opens)
+        if route == 0:
+            tree = cfg.to_tree()
+            fresh = schema(key_filename=ROOTK if root_named else None)
+            fresh.load_tree(tree)
+        else:
+            doc = cfg.dumps(format="mem")
+            fresh = schema(key_filename=ROOTK if root_named else None)
+            fresh.loads(doc, format="mem")
+        hold("files", fresh.ct.pw == "c-secret" and fresh.titems[0].pw == "t-secret", "secrets not reloaded")
+        used = set(p for p, _ in fs.opens[opens0:])
+        hold("files", used <= {CTK}, lambda: "key files opened: %r, only %r holds a key that is needed" % (sorted(used), CTK))
+        hold("files", not fs.writes, lambda: "key files created/written: %r" % (fs.writes,))
+    return True
